@@ -59,6 +59,7 @@ fn main() {
         "mtree-replay" => mtree::cmd_replay(&args),
         "mtree-scenario" => mtree::cmd_scenario(&args),
         "mtree-record" => mtree::cmd_record(&args),
+        "mtree-live" => mtree::cmd_live(&args),
         "claimleak" => mtree::cmd_claimleak(&args),
         "pdb-record" => record::cmd_record(&args),
         "pdb-record-mt" => record::cmd_record_mt(&args),
